@@ -24,4 +24,11 @@ revision) this is why the cap is never missed: a revision the compactor sees as 
 writes already queued when the compactor looks at the queue (the model's compaction step reads both atomically). -/
 theorem compact_samples_revision_before_queue : compactSamplesRevisionBeforeQueue = true := by decide
 
+/-- C09: the TiKV adapter classifies as "outcome unknown" (→ reported uncertain, queued for repair) the commit whose
+answer was lost (`ErrResultUndetermined`), timeouts and cancellations; the model's fault oracle `uncApplied` /
+`uncNotApplied` is what these errors are mapped to. -/
+theorem tikv_unknown_outcomes_classified :
+    "ErrResultUndetermined" ∈ tikvUncertainErrors ∧ "DeadlineExceeded" ∈ tikvUncertainErrors ∧
+    "Canceled" ∈ tikvUncertainErrors ∧ "ErrTiKVServerTimeout" ∈ tikvUncertainErrors := by decide
+
 end KB.OrderC09
